@@ -47,7 +47,7 @@ RULE = ('Archives: every ordered tar archive of 1..2 members (3 in thorough; qui
         'link} (1-key: also the default method; also given as a YAML file), deployed by expandPackageToDirectory and by '
         'experimentFromPackage (with data=[big.csv] when a copied folder is deployed as `data`); every source folder '
         'holds a file, a sub-folder, links, and links named like the files deployment writes later (flowir_package.yaml, '
-        'dsl.yaml, flowir_instance.yaml, manifest.yaml, big.csv) that point at victim files outside the instance. A case is non-trivial when the staging/deployment operation was actually executed on '
+        'dsl.yaml, flowir_instance.yaml, manifest.yaml, big.csv) that point at victim files outside the instance. Nested later-written names: [conf|data from a plain folder x {copy, link}, conf/<definition file> | data/big.csv x {copy, link} from {a precious file of the package, a folder}] in both orders, and the nested entry alone. A case is non-trivial when the staging/deployment operation was actually executed on '
         'it (package and instance could be set up); distinct = distinct (part, archive/refs/manifest, variant).')
 ASSUMPTIONS = [
     'the target of staging is the component working directory (…/stages/stageN/<component>); the target of '
@@ -470,7 +470,6 @@ def run_manifest_case(col, case):
         new_data = os.path.join(S, 'extra', 'big.csv')
         _write(new_data, 'replacement,data\n')
         pkg_dir = os.path.join(S, 'pkg')
-        sources = []
         for i in range(len(case['manifest'])):
             sd = os.path.join(pkg_dir, 'src%d' % i)
             _write(os.path.join(sd, 'f'), 'source-%d-f\n' % i)
@@ -483,22 +482,28 @@ def run_manifest_case(col, case):
             # links named like the files that deployment writes into conf/ and data/ after applying the manifest
             for name in G.LATER_WRITTEN:
                 os.symlink(os.path.join(abs_dir, 'later', name), os.path.join(sd, name))
-            sources.append(sd)
+        # sources of the "nested later-written name" stratum: a plain folder and a precious file of the package
+        _write(os.path.join(pkg_dir, 'plain', 'keep.txt'), 'plain-keep\n')
+        _write(os.path.join(pkg_dir, 'vfile.txt'), 'precious-file-of-the-package\n')
+        tokens = {'plain': 'plain', 'vfile': 'vfile.txt', 'missing': 'missing.txt'}
         flow = os.path.join(pkg_dir, 'flow.yaml')
         _write(flow, flow_text)
         work = os.path.join(S, 'work')
         os.makedirs(work)
         _write(os.path.join(work, 'outside-file'), 'outside-file-original-content\n')
         man = {}
+        per_entry_source = []
         for key, method, si in case['manifest']:
-            man[G.subst(key, abs_dir)] = 'src%d' % si + (':%s' % method if method else '')
+            src_rel = tokens[si] if isinstance(si, str) else 'src%d' % si
+            per_entry_source.append(os.path.join(pkg_dir, src_rel))
+            man[G.subst(key, abs_dir)] = src_rel + (':%s' % method if method else '')
         if len(man) != len(case['manifest']):
             raise HarnessError('manifest keys collide: %r' % (case['manifest'],))
         manifest_arg = man
         if case.get('as_file'):
             manifest_arg = os.path.join(pkg_dir, 'manifest.yaml')
             _write(manifest_arg, yaml.safe_dump(man, sort_keys=False))
-        entries = [(G.subst(k, abs_dir), m or 'copy', si) for k, m, si in case['manifest']]
+        entries = [(G.subst(k, abs_dir), m or 'copy', i) for i, (k, m, _) in enumerate(case['manifest'])]
         features = SB.manifest_features(entries)
         # a data file is replaced (data=[...]) when the manifest deploys a COPY of a folder as `data`; with a linked
         # data folder the replacement lands in the link's source by the user's own request (not judged: not passed)
@@ -523,7 +528,7 @@ def run_manifest_case(col, case):
             # the instance directory name carries a time stamp: find it
             names = [n for n in os.listdir(work) if n.endswith('.instance')]
             inst = os.path.join(work, names[0]) if len(names) == 1 else os.path.join(work, 'flow.instance')
-        reach = SB.manifest_targets(entries, inst, sources)
+        reach = SB.manifest_targets(entries, inst, per_entry_source)
         allowed = [lambda p: p.startswith(rel + '/') and bool(_INST_RE.match(p[len(rel) + 1:])), rel + '/shadow']
         op = 'expandPackageToDirectory' if part == 'M' else 'experimentFromPackage'
         _judge(col, case, part, op, TOP, before, after, allowed, exc, features, reach, part == 'E',
@@ -576,6 +581,8 @@ def manifest_cases(thorough):
             yield {'part': part, 'manifest': m, 'as_file': False}
         for m in G.manifests(1):
             yield {'part': part, 'manifest': m, 'as_file': True}
+        for m in G.nested_later_manifests():
+            yield {'part': part, 'manifest': m, 'as_file': False}
         for n in (2, 3) if thorough else (2,):
             for m in G.manifests(n):
                 yield {'part': part, 'manifest': m, 'as_file': False}
@@ -834,3 +841,29 @@ def _sel_manifest_conf_linked(f):
 
 
 KNOWN_SELECTORS['manifest_conf_key_linked'] = _sel_manifest_conf_linked
+
+
+def _sel_manifest_nested_later_link(f):
+    """A link-method manifest entry conf/<definition file> or data/<replaced data file> (no other hostile feature),
+    and the only thing changed outside the instance directory is the file that this entry links to."""
+    if _explained_escape(f, ('M', 'E')) != 'F':
+        return False
+    linked = []
+    for k, m, src in f['case']['manifest']:
+        parts = posixpath.normpath(k).split('/')
+        if m == 'link' and len(parts) == 2 and parts[1] in SB.LATER_WRITTEN_IN.get(parts[0], ()):
+            linked.append(src)
+    if not linked:
+        return False
+    for c in (f.get('observed') or {}).get('outside') or []:
+        path, change = c.get('path', ''), c.get('change')
+        if change == 'modified' and 'vfile' in linked and path.endswith('/pkg/vfile.txt'):
+            continue                    # the linked file was overwritten
+        if 'missing' in linked and ((change == 'added' and path.endswith('/pkg/missing.txt')) or
+                                    (change == 'modified' and path.endswith('/pkg') and c.get('fields') == ['mtime_ns'])):
+            continue                    # the dangling link's target was created
+        return False
+    return True
+
+
+KNOWN_SELECTORS['manifest_nested_link_named_like_later_write'] = _sel_manifest_nested_later_link
